@@ -11,6 +11,13 @@ inside Coq AND vs the last-writer-wins oracle written in plain Python below)
             is the closure computed by the real Licenses._expand_groups from nested definitions
   pull      collapsed_restrict_to_data(...).pull_data vs the expansion of iter_pull_data
   nipull    non_incremental_collapsed_restrict_to_data(...).pull_data
+  licfilter domain._pkg_filters() on a stub domain whose package.license is read by the real loader,
+            then a SEQUENCE of queries against that ONE long-lived license filter (packages with and
+            without matching entries, repeated); every answer must be the reading of
+            "ACCEPT_LICENSE, then the entries matching this package" whatever was asked before
+
+State carried across calls: every driver re-uses its object (decoy call first, real call twice) and
+checks that its inputs were not mutated; a difference is reported as Err("state-carried...").
 
 Generation: (1) corpus, (2) EXHAUSTIVE short streams over a 7/8-token alphabet containing the
 malformed token, (3) random longer streams over 5 flags (two share a USE_EXPAND-like prefix),
@@ -52,6 +59,46 @@ BUCKETS = {"always": "BAlways true", "never": "BAlways false", "repo": "BRepo", 
 
 def c_sources(srcs):
     return clist([cpair(BUCKETS[b], cbool(m), c_strs(d)) for b, m, d in srcs], "source")
+
+
+def c_licfilter(master, entries, groups, queries):
+    ents = clist([c_strs(e[2]) for e in entries], "list str")
+    qs = clist([cpair(clist([cbool(entry_matches(e, q)) for e in entries], "bool"),
+                      clist([c_strs(a) for a in q[2]], "list str")) for q in queries], "lic_query")
+    return cpair(c_strs(master), ents, c_groups(groups), qs)
+
+
+def entry_matches(entry, query):
+    """package.license atom `cat/NAME` or `=cat/NAME-VER` against package cat/NAME-VER (atom
+    matching itself is C04's subject; only these two shapes are generated)"""
+    name, ver, _ = entry
+    return name == query[0] and (ver is None or ver == query[1])
+
+
+def license_string(alts):
+    def one(a):
+        return " ".join(a) if len(a) == 1 else "( " + " ".join(a) + " )"
+    if len(alts) == 1:
+        return " ".join(alts[0])
+    return "|| ( " + " ".join(one(a) for a in alts) + " )"
+
+
+def ref_licfilter(master, entries, groups, queries):
+    """stateless reference: each answer from this package's own stream only"""
+    if not master and not entries:
+        return [True for _ in queries]
+    out = []
+    for q in queries:
+        stream = list(master)
+        for e in entries:
+            if entry_matches(e, q):
+                stream += e[2]
+        bad = first_bad(stream, lic=True)
+        if bad is not None:
+            out.append(bad if q[2] else False)
+            continue
+        out.append(any(all(lic_member(x, stream, alt, groups) for x in alt) for alt in q[2]))
+    return out
 
 
 # ----------------------------------------------------------------------------- implementation driver
@@ -164,6 +211,12 @@ def unfinalized_order_class(fd, always, pre):
     return any(not t.startswith("-") for t in always[last_clear + 1:])
 
 
+def entry_repeats_token(toks):
+    """a package.license / package.accept_keywords / package.use line in which some token occurs
+    twice: domain.py applies stable_unique to the line, dropping the later occurrence"""
+    return len(set(toks)) < len(toks)
+
+
 def nontrivial(ts):
     seen_pos = set()
     for i, t in enumerate(ts):
@@ -241,6 +294,46 @@ def gen_groups(rng, lics_all, expand_groups):
     return {k: frozenset(v) for k, v in d.items()}
 
 
+PKG_NAMES = ["p0", "p1", "p2", "p3"]
+
+
+def gen_licfilter(rng, lics_all, expand_groups, malformed=False):
+    groups = gen_groups(rng, lics_all, expand_groups)
+    master = gen_license_stream(rng, lics_all, 4)[:4]
+    if rng.random() < 0.5 and "-*" not in master:
+        master = ["-*"] + master            # the usual ACCEPT_LICENSE="-* @FREE" shape
+    entries = []
+    for _ in range(rng.choice([0, 1, 2, 2, 3])):
+        toks = []
+        for t in gen_license_stream(rng, lics_all, 3)[:3] or ["@H"]:
+            if t not in toks:               # the loader de-duplicates a line (separate finding)
+                toks.append(t)
+        entries.append((rng.choice(PKG_NAMES[:3]), rng.choice([None, None, "2"]), toks))
+    if malformed:
+        bad = rng.choice(["-", "-@", "@"])
+        if entries and rng.random() < 0.6:
+            e = rng.choice(range(len(entries)))
+            if bad not in entries[e][2]:
+                entries[e] = (entries[e][0], entries[e][1], splice(rng, entries[e][2], bad))
+        else:
+            master = splice(rng, master, bad)
+    queries = []
+    with_entry = [e[0] for e in entries] or PKG_NAMES
+    for _ in range(rng.choice([2, 3, 4, 5, 6])):
+        name = rng.choice(with_entry) if rng.random() < 0.55 else rng.choice(PKG_NAMES)
+        r = rng.random()
+        if r < 0.08:
+            alts = [[]]                      # LICENSE=""
+        elif r < 0.55:
+            alts = [rng.sample(lics_all, rng.choice([1, 1, 2]))]
+        else:
+            alts = [rng.sample(lics_all, rng.choice([1, 1, 2])) for _ in range(rng.choice([2, 3]))]
+        queries.append((name, rng.choice(["1", "2"]), alts))
+    if queries and rng.random() < 0.5:
+        queries.append(queries[0])           # the same package again, after the others
+    return master, entries, groups, queries
+
+
 def splice(rng, ts, bad):
     ts = list(ts)
     ts.insert(rng.randrange(len(ts) + 1), bad)
@@ -275,7 +368,14 @@ def main(chk: Check):
 
     # ---------------- implementation drivers
     def impl_expand(fin, orig, ts):
-        return call(lambda: sorted(misc.incremental_expansion(list(ts), set(orig), finalize=fin)))
+        def f():
+            toks = list(ts)
+            a = sorted(misc.incremental_expansion(toks, set(orig), finalize=fin))
+            b = sorted(misc.incremental_expansion(toks, set(orig), finalize=fin))
+            if toks != list(ts) or a != b:
+                return Err("state-carried:expand")
+            return a
+        return call(f)
 
     class _Profile:
         pkg_use = misc.ChunkedDataDict()
@@ -295,10 +395,14 @@ def main(chk: Check):
         return d
 
     def impl_optimize(ts):
-        direct = call(lambda: sorted(frozenset(misc.optimize_incrementals(list(ts)))))
+        toks = list(ts)
+        direct = call(lambda: sorted(frozenset(misc.optimize_incrementals(toks))))
+        again = call(lambda: sorted(frozenset(misc.optimize_incrementals(toks))))
         via = call(lambda: sorted(dom.domain.features.function(fake_domain(FEATURES=tuple(ts)))))
         if direct != via:
             return Err("features-differs-from-optimize")
+        if direct != again or toks != list(ts):
+            return Err("state-carried:optimize")
         return direct
 
     def impl_consume(ts, orig):
@@ -306,14 +410,78 @@ def main(chk: Check):
             d = fake_domain(USE=tuple(ts))
             d.use = dom.domain.use.function(d)
             cdd = dom.domain.enabled_use.function(d)
-            return sorted(cdd.render_pkg(_Pkg, pre_defaults=tuple(orig)))
+            cdd.render_pkg(_Pkg, pre_defaults=("zz", "a", "c"))      # decoy query on the same object
+            a = sorted(cdd.render_pkg(_Pkg, pre_defaults=tuple(orig)))
+            b = sorted(cdd.render_pkg(_Pkg, pre_defaults=tuple(orig)))
+            if a != b:
+                return Err("state-carried:render_pkg")
+            return a
         return call(f)
 
     def impl_license(lics, groups, ts):
-        return call(lambda: sorted(misc.incremental_expansion_license(
-            "cat/pkg-1", frozenset(lics), groups, list(ts), msg_prefix="x ")))
+        def f():
+            toks, g = list(ts), dict(groups)
+            a = sorted(misc.incremental_expansion_license("cat/pkg-1", frozenset(lics), g, toks, msg_prefix="x "))
+            b = sorted(misc.incremental_expansion_license("cat/pkg-1", frozenset(lics), g, toks, msg_prefix="x "))
+            if a != b or toks != list(ts) or g != dict(groups):
+                return Err("state-carried:license")
+            return a
+        return call(f)
+
+    # the license filter of a stub domain: real package.license loader, real _pkg_filters binding,
+    # one filter object for the whole sequence of queries
+    import shutil
+    import tempfile
+
+    class _LicMgr:
+        def __init__(self, groups):
+            self.groups = groups
+
+    class _KwProfile:
+        accept_keywords = ()
+        keywords = ()
+
+    class _LicDomain:
+        _pkg_filters = dom.domain._pkg_filters
+        _make_keywords_filter = dom.domain._make_keywords_filter
+        _apply_keywords_filter = dom.domain._apply_keywords_filter
+        _apply_license_filter = dom.domain._apply_license_filter
+        _default_licenses_manager = None
+        arch, stable_arch, unstable_arch = "x86", "x86", "~x86"
+        pkg_accept_keywords = ()
+        pkg_keywords = ()
+        profile = _KwProfile()
+        root = "/"
+
+    lic_tmp = tempfile.mkdtemp(prefix="verif_C12_lic_")
+
+    def impl_licfilter(master, entries, groups, queries):
+        def f():
+            d = _LicDomain()
+            d.config_dir = tempfile.mkdtemp(dir=lic_tmp)
+            with open(os.path.join(d.config_dir, "package.license"), "w") as fh:
+                for name, ver, toks in entries:
+                    atom_s = f"cat/{name}" if ver is None else f"=cat/{name}-{ver}"
+                    fh.write(atom_s + " " + " ".join(toks) + "\n")
+            d.settings = {"ACCEPT_KEYWORDS": ("x86",), "ACCEPT_LICENSE": tuple(master)}
+            d.pkg_licenses = dom.domain.pkg_licenses.function(d)
+            if [list(x[1]) for x in d.pkg_licenses] != [list(e[2]) for e in entries]:
+                return Err("package.license-not-read-back")
+            filters = d._pkg_filters()
+            repo = FakeRepo(repo_id="r", licenses=_LicMgr(groups))
+            if len(filters) == 1:            # no license filter installed: everything passes
+                return [True for _ in queries]
+            out = []
+            for name, ver, alts in queries:
+                p = FakePkg(f"cat/{name}-{ver}", data={"LICENSE": license_string(alts)}, repo=repo)
+                out.append(call(lambda: bool(filters[-1].match(p))))
+            if tuple(d.settings["ACCEPT_LICENSE"]) != tuple(master):
+                return Err("state-carried:ACCEPT_LICENSE")
+            return out
+        return call(f)
 
     pkg = FakePkg("cat/pkg-1", repo=FakeRepo(repo_id="r"))
+    pkg2 = FakePkg("dog/gkp-1", repo=FakeRepo(repo_id="q"))     # matched by the m=False restrictions
 
     def restriction(bucket, m):
         if bucket == "always":
@@ -338,7 +506,15 @@ def main(chk: Check):
         def f():
             obj = misc.collapsed_restrict_to_data(
                 [(restriction(b, m), tuple(d)) for b, m, d in srcs], finalize_defaults=fd)
+            for decoy_pkg, decoy_pre in ((pkg2, ()), (pkg2, ("zz", "b") if fd else ()),
+                                         (pkg, ("zz", "b") if fd else ())):
+                try:                     # decoy queries first: another package (the entries that do
+                    obj.pull_data(decoy_pkg, pre_defaults=decoy_pre)   # NOT match pkg match it), other pre
+                except ValueError:
+                    pass
             res = sorted(obj.pull_data(pkg, pre_defaults=tuple(pre)))
+            if res != sorted(obj.pull_data(pkg, pre_defaults=tuple(pre))):
+                return Err("state-carried:pull_data")
             if with_stream:
                 return res, list(obj.iter_pull_data(pkg, pre_defaults=tuple(pre)))
             return res
@@ -348,6 +524,7 @@ def main(chk: Check):
         def f():
             obj = misc.non_incremental_collapsed_restrict_to_data(
                 [(restriction(b, m), tuple(d)) for b, m, d in srcs])
+            obj.pull_data(pkg2)              # decoy query with another package first
             a = sorted(obj.pull_data(pkg))
             b = sorted(set(obj.iter_pull_data(pkg)))
             if a != b:
@@ -357,6 +534,7 @@ def main(chk: Check):
 
     # ---------------- case lists: (python input, coq term, impl result)
     expand_in, optimize_in, consume_in, license_in, pull_in, nipull_in = [], [], [], [], [], []
+    licfilter_in = []
 
     # (1) corpus
     cdir = VERIF / "corpus" / "C12"
@@ -371,6 +549,10 @@ def main(chk: Check):
                     consume_in.append((c["ts"], c["orig"]))
                 elif c["stream"] == "license":
                     license_in.append((c["lics"], {k: frozenset(v) for k, v in c["groups"].items()}, c["ts"]))
+                elif c["stream"] == "licfilter":
+                    licfilter_in.append((c["master"], [(e[0], e[1], e[2]) for e in c["entries"]],
+                                         {k: frozenset(v) for k, v in c["groups"].items()},
+                                         [(q[0], q[1], q[2]) for q in c["queries"]]))
 
     # (2) exhaustive short streams
     L = chk.n(3, 5)
@@ -421,6 +603,13 @@ def main(chk: Check):
         if rng.random() < 0.3:
             lt = splice(rng, lt, rng.choice(["-", "-@", "@"]))
         license_in.append((rng.sample(lics_all, 2), groups, lt))
+
+    # (4b) sequences of queries against one license filter
+    eg = lambda d: Licenses._expand_groups(None, d)  # noqa: E731
+    for _ in range(chk.n(160, 4000)):
+        licfilter_in.append(gen_licfilter(rng, lics_all, eg))
+    for _ in range(chk.n(25, 500)):
+        licfilter_in.append(gen_licfilter(rng, lics_all, eg, malformed=True))
 
     # (5) pull_data
     bnames = ["always", "always", "never", "repo", "cat", "pkg", "multi", "atom", "atom", "otheratom"]
@@ -504,6 +693,64 @@ def main(chk: Check):
                             tuple(ts)))
     chk.count("license", len(license_cases))
 
+    licfilter_cases = []
+    for master, entries, groups, queries in licfilter_in:
+        res = impl_licfilter(master, entries, groups, queries)
+        licfilter_cases.append((c_licfilter(master, entries, groups, queries), res))
+        want = ref_licfilter(master, entries, groups, queries)
+        if res != want:
+            k = len(queries)
+            if isinstance(res, list) and len(res) == len(want):
+                k = 1 + next(i for i in range(len(want)) if res[i] != want[i])
+            fail(None, "the license filter's answer is not the left-to-right reading of ACCEPT_LICENSE "
+                       "followed by the package.license entries matching that package (sequence of "
+                       "queries against one filter, in call order; the last one shown differs)",
+                 {"ACCEPT_LICENSE": master,
+                  "package.license": [(f"cat/{n}" if v is None else f"=cat/{n}-{v}") + " " + " ".join(t)
+                                      for n, v, t in entries],
+                  "groups": {g: sorted(v) for g, v in groups.items()},
+                  "queries": [{"pkg": f"cat/{n}-{v}", "LICENSE": license_string(a)} for n, v, a in queries[:k]]},
+                 res if not isinstance(res, list) else res[:k], want[:k])
+        hits = [sum(1 for e in entries if entry_matches(e, q)) for q in queries]
+        if any(h for h in hits[:-1]) and len(queries) >= 2:
+            chk.nontrivial(("f", repr((master, entries, queries))))
+    chk.count("licfilter", len(licfilter_cases))
+
+    # a package.license line that repeats a token: the loader applies stable_unique to the line,
+    # so "x -x x" is read as "x -x" (reference comparison only; recorded finding)
+    n_dup = 0
+    for _ in range(chk.n(20, 300)):
+        l = rng.choice(lics_all)
+        toks = rng.choice([[l, "-" + l, l], ["-" + l, l, "-" + l], ["@G", "-*", "@G"], [l, "-*", l]])
+        master = rng.choice([["-*"], ["-*", "@H"], [l]])
+        groups = {"G": frozenset([l]), "H": frozenset(rng.sample(lics_all, 2))}
+        entries = [("p0", None, toks)]
+        queries = [("p0", "1", [[l]]), ("p1", "1", [[l]])]
+        want = ref_licfilter(master, entries, groups, queries)
+        d = _LicDomain()
+        d.config_dir = tempfile.mkdtemp(dir=lic_tmp)
+        with open(os.path.join(d.config_dir, "package.license"), "w") as fh:
+            fh.write("cat/p0 " + " ".join(toks) + "\n")
+        d.settings = {"ACCEPT_KEYWORDS": ("x86",), "ACCEPT_LICENSE": tuple(master)}
+
+        def run_dup():
+            d.pkg_licenses = dom.domain.pkg_licenses.function(d)
+            flt = d._pkg_filters()[-1]
+            repo = FakeRepo(repo_id="r", licenses=_LicMgr(groups))
+            return [bool(flt.match(FakePkg(f"cat/{n}-{v}", data={"LICENSE": license_string(a)}, repo=repo)))
+                    for n, v, a in queries]
+        res = call(run_dup)
+        n_dup += 1
+        if res != want:
+            fail("config-line-repeated-token" if entry_repeats_token(toks) else None,
+                 "a package.license line with a repeated token is not read left to right",
+                 {"ACCEPT_LICENSE": master, "package.license": ["cat/p0 " + " ".join(toks)],
+                  "groups": {g: sorted(v) for g, v in groups.items()},
+                  "queries": [{"pkg": f"cat/{n}-{v}", "LICENSE": license_string(a)} for n, v, a in queries]},
+                 res, want)
+    chk.count("licfilter_dup", n_dup)
+    shutil.rmtree(lic_tmp, ignore_errors=True)
+
     pull_cases, nipull_cases = [], []
     for fd, srcs, pre in pull_in:
         r = impl_pull(fd, srcs, pre, with_stream=True)
@@ -540,18 +787,20 @@ def main(chk: Check):
                  res, want)
     chk.count("pull_unfinalized", n_unf)
 
-    for name, cs in (("expand", expand_cases), ("consume", consume_cases), ("license", license_cases)):
+    for name, cs in (("expand", expand_cases), ("consume", consume_cases), ("license", license_cases),
+                     ("licfilter", licfilter_cases)):
         step = max(1, len(cs) // 2)
         for inp, res in cs[step - 1::step][:2]:
             chk.sample({"stream": name, "input": inp, "impl": res})
 
     # ---------------- evaluate model (A) and spec (B) inside Coq: all streams in one case type
     ctor = {"expand": "CExpand", "optimize": "COptimize", "consume": "CConsume",
-            "license": "CLicense", "pull": "CPull", "nipull": "CNiPull"}
+            "license": "CLicense", "pull": "CPull", "nipull": "CNiPull", "licfilter": "CLicFilter"}
     raw_in = {"expand": expand_in, "optimize": optimize_in, "consume": consume_in,
-              "license": license_in, "pull": pull_in, "nipull": nipull_in}
+              "license": license_in, "pull": pull_in, "nipull": nipull_in, "licfilter": licfilter_in}
     per_stream = {"expand": expand_cases, "optimize": optimize_cases, "consume": consume_cases,
-                  "license": license_cases, "pull": pull_cases, "nipull": nipull_cases}
+                  "license": license_cases, "pull": pull_cases, "nipull": nipull_cases,
+                  "licfilter": licfilter_cases}
     allc = []           # (stream, index in stream)
     for name, cs in per_stream.items():
         allc += [(name, i) for i in range(len(cs))]
